@@ -46,6 +46,24 @@ def gen_case(rng, k):
             idirs = ["i1", "i2"]
         spell = [rng.choice(["canon", "dotdot", "dot", "symlink", "trailing"]) for _ in idirs]
         return {"files": files, "idirs": idirs, "spell": spell}
+    if k % 7 == 5:
+        # the same name in two search directories; the copy that is LATER in search order has been
+        # included through a path with a directory part before the bare name is resolved: the bare
+        # name still means the first match in search order, whatever was loaded before
+        nm, user = rng.sample(NAMES, 2)
+        v = rng.randint(0, 2)
+        files = {"i1/%s" % nm: {"includes": [], "garbage": False}, "i2/%s" % nm: {"includes": [], "garbage": False}}
+        if v == 0:
+            files["p/main.idl"] = {"includes": ["../i2/%s" % nm, nm], "garbage": False}
+        elif v == 1:
+            files["p/main.idl"] = {"includes": ["../i2/%s" % nm, user], "garbage": False}
+            files["i1/%s" % user] = {"includes": [nm], "garbage": False}
+        else:
+            files["p/main.idl"] = {"includes": [user, nm], "garbage": False}
+            files["i2/%s" % user] = {"includes": ["./%s" % nm], "garbage": False}        # i2's own copy, by path
+        idirs = ["i1", "i2"]
+        spell = [rng.choice(["canon", "dotdot", "dot", "symlink", "trailing"]) for _ in idirs]
+        return {"files": files, "idirs": idirs, "spell": spell}
     if k % 5 == 4:
         # a file reached through a path with a directory part, in a directory that is neither an -I
         # directory nor the main file's: its own BARE includes are searched in the -I directories and
